@@ -32,6 +32,7 @@ SHAPES = [
     ("single", [[1, 1], [0, 0]], False, Q, dict(params=dict(cs=True))),
     ("single", [[0, 0], [0, 0]], False, Q, dict(params=dict(cs=False), budget=600, shard=5)),
     ("sub", [[1, 0], [0, 0]], False, Q, dict(params=dict(k=2), budget=600, shard=5)),
+    ("sub", [[1, 1]], False, Q, dict(params=dict(k=1, built="merge"), budget=600)),
     ("chain", [[0, 0]], False, T, dict(params=dict(second=[[0, 0]], third=[[0, 0]], cs=True), budget=2400, shard=8)),
     ("chain", [[1, 0], [0, 0]], False, T, dict(params=dict(second=[[1, 0], [0, 0]], cs=True), budget=3000, shard=9)),
     ("chain", [[0, 0], [0, 0]], False, T, dict(params=dict(second=[[0, 0]], cs=False), budget=3000, shard=9)),
@@ -121,7 +122,17 @@ def build(job):
         api = eng.mods.api
         recs = mk_recs(eng, params["shape"])
         assume_strict(eng, recs)
-        parent = api.Converter([api.Record(**r.kwargs()) for r in recs])
+        if params.get("built") == "merge":
+            # the parent acquires its synonyms by in-place merges (after having been used), not at construction
+            parent = api.Converter([api.Record(prefix=r.prefix, uri_prefix=r.uri_prefix) for r in recs])
+            parent.get_subconverter([recs[0].prefix])
+            for r in recs:
+                for x in r.psyn:
+                    parent.add_prefix(x, r.uri_prefix, merge=True)
+                for x in r.usyn:
+                    parent.add_prefix(r.prefix, x, merge=True)
+        else:
+            parent = api.Converter([api.Record(**r.kwargs()) for r in recs])
         P = [eng.var(f"s{i}") for i in range(params["k"])]
         before = snapshot_records(parent)
         subc = parent.get_subconverter(P)
